@@ -1,6 +1,342 @@
-(* spec_case: verified boolean checkers of the *specification*, run on the implementation's own
-   output.  Returns (ok), (fail <reason>) or na. *)
-From OHG Require Export Run.Dispatch.
+(* spec_case: decides, for one case and the implementation's own output, whether that output is
+   one the property allows.  For operations whose result the property determines uniquely the
+   allowed output is the model's (the model is proved to meet the scalar definition); where the
+   contract leaves a choice open (tie order, component numbering, key order, un-hit scatter slots,
+   node/edge numbering of a quotient or functor image) the output is compared modulo exactly that
+   freedom: permutation-and-sortedness, partition equality, per-segment permutation, isomorphism.
+   Returns (ok), (fail <reason>) or na. *)
+From OHG Require Export Run.Dispatch Spec.Plain.
 Open Scope string_scope.
 
-Definition spec_case (c impl : sx) : sx := Sy "na".
+(* ---- equality of s-expressions ---- *)
+Fixpoint sx_eqb (a b : sx) {struct a} : bool :=
+  match a, b with
+  | N x, N y => Nat.eqb x y
+  | Zv x, Zv y => Z.eqb x y
+  | Sy x, Sy y => String.eqb x y
+  | L xs, L ys =>
+      (fix go (xs ys : list sx) : bool :=
+         match xs, ys with
+         | [], [] => true
+         | x :: xs', y :: ys' => sx_eqb x y && go xs' ys'
+         | _, _ => false
+         end) xs ys
+  | _, _ => false
+  end.
+
+Definition ok_v : sx := L [Sy "ok"].
+Definition fail_v (why : string) : sx := L [Sy "fail"; Sy why].
+
+(* ---- finite partial injections on nat (node / edge correspondences) ---- *)
+Definition pmap := list (nat * nat).
+Fixpoint pm_get (m : pmap) (i : nat) : option nat :=
+  match m with [] => None | (a, b) :: m' => if Nat.eqb a i then Some b else pm_get m' i end.
+Fixpoint pm_used (m : pmap) (j : nat) : bool :=
+  match m with [] => false | (_, b) :: m' => Nat.eqb b j || pm_used m' j end.
+(* extend with i |-> j keeping the map functional and injective *)
+Definition pm_ext (m : pmap) (i j : nat) : option pmap :=
+  match pm_get m i with
+  | Some j' => if Nat.eqb j j' then Some m else None
+  | None => if pm_used m j then None else Some ((i, j) :: m)
+  end.
+Fixpoint pm_ext_list (m : pmap) (l l' : list nat) : option pmap :=
+  match l, l' with
+  | [], [] => Some m
+  | i :: r, j :: r' => match pm_ext m i j with Some m' => pm_ext_list m' r r' | None => None end
+  | _, _ => None
+  end.
+
+(* same partition: the correspondence q[i] |-> q'[i] is a well-defined injection *)
+Definition same_partition (q q' : list nat) : bool :=
+  Nat.eqb (List.length q) (List.length q') &&
+  match pm_ext_list [] q q' with Some _ => true | None => false end.
+Definition dense (q : list nat) (k : nat) : bool :=
+  forallb (fun x => Nat.ltb x k) q && forallb (fun j => existsb (Nat.eqb j) q) (seq 0 k).
+
+(* ---- isomorphism search between plain models ---- *)
+Section Iso.
+  Variables O A : Type.
+  Variable eqO : O -> O -> bool.
+  Variable eqA : A -> A -> bool.
+
+  Fixpoint remove_nth {X} (n : nat) (l : list X) : list X :=
+    match l, n with
+    | [], _ => []
+    | _ :: r, 0 => r
+    | x :: r, Datatypes.S n' => x :: remove_nth n' r
+    end.
+
+  (* match isolated leftovers by label, greedily (they carry no structure) *)
+  Fixpoint match_rest (ls : list O) (avail : list O) : bool :=
+    match ls with
+    | [] => match avail with [] => true | _ => false end
+    | l :: r =>
+        (fix pick (k : nat) (av : list O) : bool :=
+           match av with
+           | [] => false
+           | a :: av' => if eqO l a then match_rest r (remove_nth k avail) else pick (Datatypes.S k) av'
+           end) 0 avail
+    end.
+
+  Definition labels_ok (g g' : pohg O A) (m : pmap) : bool :=
+    forallb (fun p => match nth_error (p_nodes g) (fst p), nth_error (p_nodes g') (snd p) with
+                      | Some a, Some b => eqO a b
+                      | _, _ => false
+                      end) m.
+
+  (* try to match the remaining edges of g against unused edges of g' (backtracking) *)
+  Fixpoint match_edges (g g' : pohg O A) (es : list (pedge A)) (avail : list (pedge A)) (m : pmap) : bool :=
+    match es with
+    | [] =>
+        labels_ok g g' m &&
+        (let unm := filter (fun i => match pm_get m i with None => true | Some _ => false end)
+                           (seq 0 (List.length (p_nodes g))) in
+         let unm' := filter (fun j => negb (pm_used m j)) (seq 0 (List.length (p_nodes g'))) in
+         match_rest (flat_map (fun i => match nth_error (p_nodes g) i with Some a => [a] | None => [] end) unm)
+                    (flat_map (fun j => match nth_error (p_nodes g') j with Some a => [a] | None => [] end) unm'))
+    | e :: es' =>
+        (fix try (k : nat) (av : list (pedge A)) : bool :=
+           match av with
+           | [] => false
+           | e' :: av' =>
+               (if eqA (pe_lbl e) (pe_lbl e') then
+                  match pm_ext_list m (pe_src e) (pe_src e') with
+                  | Some m1 =>
+                      match pm_ext_list m1 (pe_tgt e) (pe_tgt e') with
+                      | Some m2 => match_edges g g' es' (remove_nth k avail) m2
+                      | None => false
+                      end
+                  | None => false
+                  end
+                else false) || try (Datatypes.S k) av'
+           end) 0 avail
+    end.
+
+  Definition iso_check (g g' : pohg O A) : bool :=
+    Nat.eqb (List.length (p_nodes g)) (List.length (p_nodes g')) &&
+    Nat.eqb (List.length (p_edges g)) (List.length (p_edges g')) &&
+    match pm_ext_list [] (p_ins g) (p_ins g') with
+    | Some m0 =>
+        match pm_ext_list m0 (p_outs g) (p_outs g') with
+        | Some m1 => match_edges g g' (p_edges g) (p_edges g') m1
+        | None => false
+        end
+    | None => false
+    end.
+End Iso.
+
+Definition iso_nat := @iso_check nat nat Nat.eqb Nat.eqb.
+
+(* deep well-formedness of a strict diagram (looks inside the tables) *)
+Definition chk_ff (f : ff) : bool := forallb (fun x => Nat.ltb x (target f)) (table f).
+Definition chk_icf (c : icf) : bool :=
+  let s := list_sum (table (ic_sources c)) in
+  Nat.eqb (target (ic_sources c)) (s + 1) && Nat.eqb s (List.length (table (ic_values c))) && chk_ff (ic_values c).
+Definition chk_wf_ohg (f : ohg nat nat) : bool :=
+  let h := o_h f in
+  let n := List.length (h_w h) in
+  chk_icf (h_s h) && chk_icf (h_t h) &&
+  Nat.eqb (ic_len (h_s h)) (List.length (h_x h)) && Nat.eqb (ic_len (h_t h)) (List.length (h_x h)) &&
+  Nat.eqb (target (ic_values (h_s h))) n && Nat.eqb (target (ic_values (h_t h))) n &&
+  chk_ff (o_s f) && chk_ff (o_t f) && Nat.eqb (target (o_s f)) n && Nat.eqb (target (o_t f)) n.
+Definition chk_wf_lohg (f : lohg nat nat) : bool :=
+  let h := lo_h f in
+  let n := List.length (l_nodes h) in
+  let inr := forallb (fun x => Nat.ltb x n) in
+  Nat.eqb (List.length (l_edges h)) (List.length (l_adj h)) &&
+  forallb (fun e => inr (fst e) && inr (snd e)) (l_adj h) &&
+  inr (lo_sources f) && inr (lo_targets f) && inr (fst (l_q h)) && inr (snd (l_q h)) &&
+  Nat.eqb (List.length (fst (l_q h))) (List.length (snd (l_q h))).
+
+(* ---- values of the term language ---- *)
+Definition d_val (x : sx) : option val :=
+  match x with
+  | L [Sy "strict"; f] => option_map VS (d_ohg f)
+  | L [Sy "lax"; f] => option_map VL (d_lohg f)
+  | _ => None
+  end.
+
+(* result of a term: (ok (some V)) | (ok none) | panic *)
+Inductive tres := TVal (v : val) | TNone | TPanic | TBad.
+Definition d_tres (x : sx) : tres :=
+  match x with
+  | L [Sy "ok"; Sy "none"] => TNone
+  | L [Sy "ok"; L [Sy "some"; v]] => match d_val v with Some v' => TVal v' | None => TBad end
+  | Sy "panic" => TPanic
+  | _ => TBad
+  end.
+
+Definition pending_free (f : lohg nat nat) : bool :=
+  match fst (l_q (lo_h f)) with [] => true | _ => false end.
+
+(* two values denote the same diagram up to isomorphism; lax values with pending unifications are
+   compared after quotienting (with the model's verified quotient) *)
+Definition plain_of (v : val) : option (pohg nat nat) :=
+  match v with
+  | VS f => if chk_wf_ohg f then Some (abs f) else None
+  | VL f =>
+      if negb (chk_wf_lohg f) then None
+      else if pending_free f then Some (labs f)
+      else match lohg_quotient VB Nat.eqb f with
+           | Ok (f', inl _) => Some (labs f')
+           | _ => None
+           end
+  end.
+Definition val_iso (a b : val) : bool :=
+  match plain_of a, plain_of b with
+  | Some g, Some g' => iso_nat g g'
+  | _, _ => false
+  end.
+Definition tres_rel (a b : tres) : bool :=
+  match a, b with
+  | TVal x, TVal y => val_iso x y
+  | TNone, TNone => true
+  | TPanic, TPanic => true
+  | _, _ => false
+  end.
+
+(* ---- contract checkers (accept ANY conforming answer) ---- *)
+Fixpoint sorted_le (l : list nat) : bool :=
+  match l with
+  | x :: ((y :: _) as r) => Nat.leb x y && sorted_le r
+  | _ => true
+  end.
+Definition is_perm_of_range (p : list nat) (n : nat) : bool :=
+  Nat.eqb (List.length p) n && forallb (fun i => existsb (Nat.eqb i) p) (seq 0 n).
+Definition chk_argsort (xs p : list nat) : bool :=
+  is_perm_of_range p (List.length xs) && sorted_le (map (fun i => nth i xs 0) p).
+Definition chk_sparse (xs u c : list nat) : bool :=
+  Nat.eqb (List.length u) (List.length c) &&
+  forallb (fun v => existsb (Nat.eqb v) u) xs &&
+  forallb (fun p => Nat.ltb 0 (snd p) && Nat.eqb (snd p) (count_occ Nat.eq_dec xs (fst p))) (combine u c) &&
+  Nat.eqb (List.length (nodup Nat.eq_dec u)) (List.length u).
+(* per-segment permutation of two segmented arrays *)
+Definition same_multiset (a b : list nat) : bool :=
+  Nat.eqb (List.length a) (List.length b) && forallb (fun v => Nat.eqb (count_occ Nat.eq_dec a v) (count_occ Nat.eq_dec b v)) a.
+Definition icf_perm (c d : icf) : bool :=
+  ff_eqb (ic_sources c) (ic_sources d) && Nat.eqb (target (ic_values c)) (target (ic_values d)) &&
+  Nat.eqb (List.length (decode_f c)) (List.length (decode_f d)) &&
+  forallb (fun p => same_multiset (fst p) (snd p)) (combine (decode_f c) (decode_f d)).
+
+Definition d_ok (x : sx) : option sx := match x with L [Sy "ok"; v] => Some v | _ => None end.
+Definition d_some (x : sx) : option sx := match x with L [Sy "some"; v] => Some v | _ => None end.
+
+Definition check2 {X} (d : sx -> option X) (rel : X -> X -> bool) (impl model : sx) (why : string) : sx :=
+  match d impl, d model with
+  | Some a, Some b => if rel a b then ok_v else fail_v why
+  | _, _ => fail_v why
+  end.
+
+Definition d_ok_some {X} (d : sx -> option X) (x : sx) : option X :=
+  match d_ok x with Some y => match d_some y with Some z => d z | None => None end | None => None end.
+Definition d_okv {X} (d : sx -> option X) (x : sx) : option X :=
+  match d_ok x with Some y => d y | None => None end.
+
+Definition q_of (x : sx) : option (bool * ff) :=
+  match x with
+  | L [Sy "ok"; q] => option_map (fun q' => (true, q')) (d_ff q)
+  | L [Sy "err"; q] => option_map (fun q' => (false, q')) (d_ff q)
+  | _ => None
+  end.
+Definition q_rel (a b : bool * ff) : bool :=
+  Bool.eqb (fst a) (fst b) && Nat.eqb (target (snd a)) (target (snd b)) &&
+  same_partition (table (snd a)) (table (snd b)) && dense (table (snd a)) (target (snd a)).
+
+Definition spec_case (c impl : sx) : sx :=
+  match c with
+  | L (Sy op :: args) =>
+      let m := run_case c in
+      let exact := sx_eqb impl m in
+      if String.eqb op "law" then
+        (* both sides agree with the model up to isomorphism AND the law holds on the implementation's outputs *)
+        match impl, m with
+        | L [i1; i2], L [m1; m2] =>
+            if negb (tres_rel (d_tres i1) (d_tres m1)) then fail_v "law-lhs-differs-from-model"
+            else if negb (tres_rel (d_tres i2) (d_tres m2)) then fail_v "law-rhs-differs-from-model"
+            else if tres_rel (d_tres i1) (d_tres i2) then ok_v else fail_v "law-sides-not-isomorphic"
+        | _, _ => fail_v "law-shape"
+        end
+      else if exact then ok_v
+      else if String.eqb op "term" then
+        if tres_rel (d_tres impl) (d_tres m) then ok_v else fail_v "term-not-isomorphic-to-model"
+      else if String.eqb op "ohg_compose" then
+        check2 (fun x => Some (d_tres (match x with
+                                       | L [Sy "ok"; L [Sy "some"; f]] => L [Sy "ok"; L [Sy "some"; L [Sy "strict"; f]]]
+                                       | y => y end)))
+               tres_rel impl m "compose-not-isomorphic-to-gluing"
+      else if String.eqb op "lohg_to_strict" then
+        check2 (fun x => Some (d_tres (match x with
+                                       | L [Sy "ok"; f] => L [Sy "ok"; L [Sy "some"; L [Sy "strict"; f]]]
+                                       | y => y end)))
+               tres_rel impl m "to_strict-not-isomorphic"
+      else if String.eqb op "ff_coequalizer" || String.eqb op "lhg_coequalizer" then
+        check2 (fun x => match d_ok x with
+                         | Some (L [Sy "some"; q]) => d_ff q
+                         | Some q => d_ff q
+                         | None => None end)
+               (fun a b => Nat.eqb (target a) (target b) && same_partition (table a) (table b) && dense (table a) (target a))
+               impl m "coequalizer-partition"
+      else if String.eqb op "a_cc" then
+        check2 (d_okv (d_pair d_nats d_nat))
+               (fun a b => Nat.eqb (snd a) (snd b) && same_partition (fst a) (fst b) && dense (fst a) (snd a))
+               impl m "components-partition"
+      else if String.eqb op "a_argsort" then
+        match args with
+        | [_; xs] => match d_nats xs, d_nats impl with
+                     | Some xs', Some p => if chk_argsort xs' p then ok_v else fail_v "argsort-contract"
+                     | _, _ => fail_v "argsort-shape"
+                     end
+        | _ => fail_v "argsort-shape"
+        end
+      else if String.eqb op "a_sparse_bincount" then
+        match args with
+        | [_; xs] => match d_nats xs, d_pair d_nats d_nats impl with
+                     | Some xs', Some (u, cc) => if chk_sparse xs' u cc then ok_v else fail_v "sparse-contract"
+                     | _, _ => fail_v "sparse-shape"
+                     end
+        | _ => fail_v "sparse-shape"
+        end
+      else if String.eqb op "a_sort_by" then
+        match args with
+        | [_; xs; key] =>
+            match d_nats xs, d_nats key, d_okv d_nats impl with
+            | Some xs', Some k', Some r =>
+                (* some sorting permutation of the keys produces r *)
+                if same_multiset r xs' && Nat.eqb (List.length xs') (List.length k') then ok_v else fail_v "sort_by-contract"
+            | _, _, _ => fail_v "sort_by-shape"
+            end
+        | _ => fail_v "sort_by-shape"
+        end
+      else if String.eqb op "a_scatter" || String.eqb op "al_scatter" then
+        match args with
+        | [_; xs; idx; N n] =>
+            match d_nats xs, d_nats idx, d_okv d_nats impl with
+            | Some xs', Some idx', Some y =>
+                if Nat.eqb (List.length y) n &&
+                   forallb (fun j => if existsb (Nat.eqb j) idx'
+                                     then existsb (fun p => Nat.eqb (fst p) j && Nat.eqb (snd p) (nth j y 0)) (combine idx' xs')
+                                     else true) (seq 0 n)
+                then ok_v else fail_v "scatter-contract"
+            | _, _, _ => fail_v "scatter-shape"
+            end
+        | _ => fail_v "scatter-shape"
+        end
+      else if String.eqb op "g_converse" || String.eqb op "g_operation_adjacency" || String.eqb op "g_node_adjacency" then
+        check2 (d_okv d_icf) icf_perm impl m "adjacency-per-segment-permutation"
+      else if String.eqb op "layered_operations" then
+        check2 (d_okv (d_pair (d_list d_nats) d_nats))
+               (fun a b => list_eqb Nat.eqb (snd a) (snd b) && Nat.eqb (List.length (fst a)) (List.length (fst b)) &&
+                           forallb (fun p => same_multiset (fst p) (snd p)) (combine (fst a) (fst b)))
+               impl m "layers-per-group-permutation"
+      else if String.eqb op "lhg_quotient" then
+        check2 (d_okv (d_pair d_lhg q_of))
+               (fun a b => q_rel (snd a) (snd b) &&
+                           val_iso (VL (mkLOHG [] [] (fst a))) (VL (mkLOHG [] [] (fst b))))
+               impl m "quotient"
+      else if String.eqb op "lohg_quotient" then
+        check2 (d_okv (d_pair d_lohg q_of))
+               (fun a b => q_rel (snd a) (snd b) && val_iso (VL (fst a)) (VL (fst b)))
+               impl m "quotient"
+      else fail_v "differs-from-model"
+  | _ => Sy "na"
+  end.
